@@ -242,6 +242,26 @@ def rule_coerce(ctx):
     ctx.ob('C06.coerce', f'{f.fq}:list-branch', sub == wantsub, f'list coercions must be {wantsub}; found {sub}', loop[0], mod)
 
 
+def rule_addarg(ctx):
+    ctx.rule('C06.coerce', 'add_arg keeps arguments in call order as (tag, value) pairs: it only appends, infers the tag exactly when none is '
+                           'given, and the tag string and the payloads are both produced from that one list')
+    f = ctx.repo.func('sc3.base._osclib:OscMessageBuilder.add_arg')
+    mod = f.module
+    v, t = f.params[1], f.params[2]
+    grows = [c for c in U.calls(f.node) if isinstance(c.func, ast.Attribute) and norm(c.func.value) == 'self._args']
+    ctx.ob('C06.coerce', f'{f.fq}:append-only', bool(grows) and all(c.func.attr == 'append' for c in grows),
+           f'arguments are appended in call order; found {[norm(c) for c in grows]}', f.node, mod)
+    pairs = [norm(c.args[0]) for c in grows if c.args]
+    ctx.ob('C06.coerce', f'{f.fq}:pair', f'({t}, {v})' in pairs, f'the scalar branch stores ({t}, {v}); found {pairs}', f.node, mod)
+    src = full(f.node)
+    ctx.ob('C06.coerce', f'{f.fq}:infer-when-absent', f'if not {t}: {t} = self._get_arg_type({v})' in src,
+           'the tag is inferred from the value exactly when no tag was given', f.node, mod)
+    b = ctx.repo.func('sc3.base._osclib:OscMessageBuilder.build')
+    bsrc = full(b.node)
+    ok = "arg_types = ''.join([arg[0] for arg in self._args])" in bsrc and 'for arg_type, value in self._args:' in bsrc
+    ctx.ob('C06.coerce', f'{b.fq}:one-list', ok, 'the tag string and the payload loop both iterate self._args in order', b.node, mod)
+
+
 def _strpad_fn(ctx):
     f = ctx.repo.func('sc3.base.netaddr:NetAddr._strpad4')
     ret = [s for s in f.node.body if isinstance(s, ast.Return)][0].value
@@ -539,6 +559,7 @@ def run(ctx):
     rule_codec(ctx)
     rule_pad(ctx)
     rule_coerce(ctx)
+    rule_addarg(ctx)
     rule_size(ctx)
     rule_clump(ctx)
     rule_shapes(ctx)
@@ -546,6 +567,10 @@ def run(ctx):
 
 
 MUTANTS = [
+    dict(rule='C06.coerce', name='add_arg stores (value, tag)', file='sc3/base/_osclib.py',
+         old="            self._args.append((arg_type, arg_value))", new="            self._args.append((arg_value, arg_type))"),
+    dict(rule='C06.coerce', name='add_arg inserts at the front', file='sc3/base/_osclib.py',
+         old="            self._args.append((arg_type, arg_value))", new="            self._args.insert(0, (arg_type, arg_value))"),
     dict(rule='C06.size', name='large floats inferred as doubles', file='sc3/base/_osclib.py',
          old="        elif isinstance(arg_value, float):\n            arg_type = self.ARG_TYPE_FLOAT\n",
          new="        elif isinstance(arg_value, float):\n            arg_type = self.ARG_TYPE_DOUBLE if abs(arg_value) > 3.4e38 else self.ARG_TYPE_FLOAT\n"),
